@@ -15,10 +15,13 @@ import Pog.Lemmas.SurfaceModule
 
     text level (every method text of the emitted shape `WellFormedMethod`)
       Protocol stub  : same name / parameters / kinds / defaults / annotations / return annotation  (full)
-                       `async` is dropped exactly when the return ANNOTATION TEXT contains `AsyncIterator`;
-                       ✗ that is not "the method is an async generator": `-> AsyncIteratorResult`
-      mock           : identical signature incl. `async` (full); body = docstring + raise (+ `yield`) (full)
-                       ✗ coroutine/async-generator nature differs from the client for the same texts
+                       `async` is dropped exactly when the return annotation IS `AsyncIterator[...]` (F47 repaired:
+                       the test was `"AsyncIterator" in <text>`, true of `-> AsyncIteratorResult`)
+      mock           : identical signature incl. `async` (full); body = docstring + raise (+ `yield`) (full);
+                       the `yield` is written by the Protocol stub's criterion (full, `mock_proto_same_criterion`)
+                       ✗ coroutine/async-generator nature differs from the client when the client's body does not
+                         `yield` although it is annotated `AsyncIterator[...]` (partial; the `AsyncIteratorResult`
+                         class, F47, is repaired: `mock_nature_former_witness`, `proto_async_kept_former_witness`)
                        ✗ the error message of an untagged operation names a class that does not exist
     grouping level (every operation list, every CPython case table `UInfo`)
       tag maps       : emitter and client visitor compute the same map, neither raises           (full)
@@ -77,11 +80,12 @@ example : sigOf sampleMethod = some
 
 /-- **Protocol stub.**  For every method text of the emitted shape the stub has a signature, and it is the
     client's signature — same name, parameters (names, order, keyword-only marker, annotations, defaults) and
-    return annotation — except that `async` is dropped exactly when the return annotation mentions
-    `AsyncIterator` (the visitor's convention for async generators). -/
+    return annotation — except that `async` is dropped exactly when the return annotation is `AsyncIterator[...]`
+    itself (the visitor's convention for async generators; F47 repaired: a type NAME containing that text, as in
+    `-> AsyncIteratorResult` or `-> List[AsyncIteratorResult]`, keeps `async`). -/
 theorem proto_preserves_signature (m : List Str) (h : WellFormedMethod m = true) :
     ∃ sg, sigOf m = some sg ∧ sg.isAsync = true ∧
-      sigOf (protoStub m) = some { sg with isAsync := !retMentionsAsyncIter sg.ret } := by
+      sigOf (protoStub m) = some { sg with isAsync := !retIsAsyncIter sg.ret } := by
   obtain ⟨sg, hsg, ha, _⟩ := wf_sigGo_some m false h
   refine ⟨sg, hsg, ha, ?_⟩
   have := proto_sig_go m false h
@@ -106,8 +110,8 @@ theorem three_way_signature (cls meth : Str) (m : List Str) (h : WellFormedMetho
   exact ⟨sg, hsg, by rw [(mock_preserves_signature cls meth m h).1, hsg], _, hp, rfl, rfl, rfl⟩
 
 /-- **Mock body.**  The body of the mock method is exactly the fixed docstring, one
-    `raise NotImplementedError("<cls>.<meth>() not implemented. …")` line and — iff `AsyncIterator` occurs in the
-    signature lines joined by a space (`mockYields`) — the unreachable `yield`. -/
+    `raise NotImplementedError("<cls>.<meth>() not implemented. …")` line and — iff `returns_async_iterator` holds of
+    the line closing the signature (`mockYields`) — the unreachable `yield`. -/
 theorem mock_body_raises (cls meth : Str) (m : List Str) (h : WellFormedMethod m = true) :
     bodyOf (toMock cls meth m) = mockBody cls meth (mockYields m) := by
   have := (mock_go cls meth m false h).2
@@ -129,20 +133,43 @@ theorem mock_nature (cls meth : Str) (m : List Str) (h : WellFormedMethod m = tr
   rw [(mock_preserves_signature cls meth m h).1, mock_body_raises cls meth m h, mockBody_yields, sigOf, hsg]
   cases mockYields m <;> simp [ha]
 
+/-- **One criterion** (F47 repaired: both transformers call `returns_async_iterator` on the line closing the signature):
+    the mock gets its `yield` exactly when the return annotation `sigOf` reads off the text is `AsyncIterator[...]` —
+    exactly when the Protocol stub drops `async` (`proto_preserves_signature`). -/
+theorem mock_proto_same_criterion (m : List Str) (h : WellFormedMethod m = true) :
+    ∃ sg, sigOf m = some sg ∧ mockYields m = retIsAsyncIter sg.ret ∧
+      (sigOf (protoStub m)).map (·.isAsync) = some (!mockYields m) := by
+  obtain ⟨sg, hsg, hy⟩ := wf_mockYields m false h
+  obtain ⟨sg', hsg', _, hp⟩ := proto_preserves_signature m h
+  have : sg' = sg := by
+    have h1 : sigOf m = some sg := hsg
+    rw [h1] at hsg'
+    exact (Option.some.inj hsg').symm
+  subst this
+  refine ⟨sg', hsg, hy, ?_⟩
+  rw [hp]
+  unfold mockYields
+  rw [hy]
+  rfl
+
 /-- Whether the client body (after its docstring) contains a `yield` statement. -/
 def clientYields (m : List Str) : Bool := (skipDoc (bodyOf m)).any isYieldLine
 
-/-- ✗ `mock_nature_agrees : natureOf (toMock cls meth m) = natureOf m` — false.
-    Restricted to the texts where "`AsyncIterator` occurs in the signature" coincides with "the body yields". -/
+/-- ✗ `mock_nature_agrees : natureOf (toMock cls meth m) = natureOf m` — false at the text level
+    (`mock_nature_agrees_counterexample`).  Restricted to the texts whose body yields exactly when the return annotation is
+    `AsyncIterator[...]` — the contract of `EndpointMethodGenerator` for a streaming operation.  Since the repair of F47
+    the hypothesis speaks of the return ANNOTATION (`retIsAsyncIter`), no longer of the text `AsyncIterator` occurring
+    anywhere in the signature: a coroutine returning `AsyncIteratorResult` satisfies it. -/
 theorem mock_nature_agrees_partial (cls meth : Str) (m : List Str) (h : WellFormedMethod m = true)
-    (hy : clientYields m = mockYields m) : natureOf (toMock cls meth m) = natureOf m := by
+    (hy : ∀ sg, sigOf m = some sg → clientYields m = retIsAsyncIter sg.ret) :
+    natureOf (toMock cls meth m) = natureOf m := by
   obtain ⟨sg, hsg, ha, _⟩ := wf_sigGo_some m false h
-  rw [mock_nature cls meth m h]
+  obtain ⟨sg', hsg', hcrit, _⟩ := mock_proto_same_criterion m h
+  rw [mock_nature cls meth m h, hcrit, ← hy sg' hsg']
   unfold natureOf
   rw [sigOf, hsg]
-  unfold clientYields at hy
-  rw [hy]
-  cases mockYields m <;> simp [ha]
+  unfold clientYields
+  cases (skipDoc (bodyOf m)).any isYieldLine <;> simp [ha]
 
 /-- An operation whose response schema happens to be called `AsyncIteratorResult`. -/
 def asyncIterNamed : List Str := [
@@ -152,21 +179,67 @@ def asyncIterNamed : List Str := [
   "    \"\"\"Get it.\"\"\"".toList,
   "    return structure_from_dict(response.json(), AsyncIteratorResult)".toList]
 
-/-- ✗ witness (defect class `mock-asyncgen-nature`): the client method is a coroutine, its mock an async
-    generator — `await mock.get_it()` raises `TypeError` instead of `NotImplementedError`. -/
-theorem mock_nature_counterexample :
+/-- A streaming method as the generator emits it. -/
+def streamingMethod : List Str := [
+  "async def watch(".toList,
+  "    self,".toList,
+  "    q: str | None = None,".toList,
+  ") -> AsyncIterator[dict[str, Any]]:".toList,
+  "    \"\"\"Watch.\"\"\"".toList,
+  "    async for chunk in iter_sse_events_text(response):".toList,
+  "        yield json.loads(chunk)".toList]
+
+/-- The hypothesis of `mock_nature_agrees_partial` is satisfiable by a coroutine, by the former F47 witness and by a stream. -/
+example : (∀ m ∈ [sampleMethod, asyncIterNamed, streamingMethod], WellFormedMethod m = true ∧
+    ∀ sg, sigOf m = some sg → clientYields m = retIsAsyncIter sg.ret) ∧
+    natureOf streamingMethod = some .asyncGen := by
+  refine ⟨?_, by decide⟩
+  intro m hm
+  simp only [List.mem_cons, List.not_mem_nil, or_false] at hm
+  rcases hm with rfl | rfl | rfl
+  · refine ⟨by decide, ?_⟩
+    have h : (sigOf sampleMethod).map (fun sg => clientYields sampleMethod == retIsAsyncIter sg.ret) = some true := by decide
+    intro sg hsg; rw [hsg] at h; simpa using h
+  · refine ⟨by decide, ?_⟩
+    have h : (sigOf asyncIterNamed).map (fun sg => clientYields asyncIterNamed == retIsAsyncIter sg.ret) = some true := by decide
+    intro sg hsg; rw [hsg] at h; simpa using h
+  · refine ⟨by decide, ?_⟩
+    have h : (sigOf streamingMethod).map (fun sg => clientYields streamingMethod == retIsAsyncIter sg.ret) = some true := by decide
+    intro sg hsg; rw [hsg] at h; simpa using h
+
+/-- The former witness of F47 (defect class `mock-asyncgen-nature`): the client method is a coroutine and so is its mock
+    (before the repair the mock was an async generator — `await mock.get_it()` raised `TypeError` instead of
+    `NotImplementedError`); a real stream still gets the async-generator mock. -/
+theorem mock_nature_former_witness :
     WellFormedMethod asyncIterNamed = true ∧ natureOf asyncIterNamed = some .coroutine ∧
-      natureOf (toMock "MockXClient".toList "get_it".toList asyncIterNamed) = some .asyncGen := by
+      natureOf (toMock "MockXClient".toList "get_it".toList asyncIterNamed) = some .coroutine ∧
+      natureOf (toMock "MockXClient".toList "watch".toList streamingMethod) = some .asyncGen := by
   decide
 
-/-- ✗ witness (defect class `protocol-async-dropped`): for the same text the Protocol declares a plain `def`
-    although the client method is a coroutine (`async` is dropped on the TEXT test `"AsyncIterator" in line`). -/
-theorem proto_async_dropped_counterexample :
+/-- The former witness of F47 (defect class `protocol-async-dropped`): for the same text the Protocol keeps `async def`
+    (before the repair it declared a plain `def` on the TEXT test `"AsyncIterator" in line`); the stub of a real stream
+    is the plain `def` of the documented convention. -/
+theorem proto_async_kept_former_witness :
     natureOf asyncIterNamed = some .coroutine ∧
-      (sigOf (protoStub asyncIterNamed)).map (·.isAsync) = some false := by
+      (sigOf (protoStub asyncIterNamed)).map (·.isAsync) = some true ∧
+      (sigOf (protoStub streamingMethod)).map (·.isAsync) = some false := by
   decide
 
-example : WellFormedMethod sampleMethod = true ∧ clientYields sampleMethod = mockYields sampleMethod := by decide
+/-- A method annotated `AsyncIterator[...]` whose body never yields (a streamed response under a key that gets no `case`
+    of its own, e.g. `2XX`). -/
+def streamWithoutYield : List Str := [
+  "async def watch(".toList,
+  "    self,".toList,
+  ") -> AsyncIterator[bytes]:".toList,
+  "    \"\"\"Watch.\"\"\"".toList,
+  "    raise HTTPError(response=response, message=\"Unhandled status code\", status_code=response.status_code)".toList]
+
+/-- ✗ witness for the hypothesis that remains (not the F47 class): annotated `AsyncIterator[bytes]` without a `yield`,
+    the client is a coroutine, its mock an async generator. -/
+theorem mock_nature_agrees_counterexample :
+    WellFormedMethod streamWithoutYield = true ∧ natureOf streamWithoutYield = some .coroutine ∧
+      natureOf (toMock "MockXClient".toList "watch".toList streamWithoutYield) = some .asyncGen := by
+  decide
 
 /-- Latent (not reachable today: `write_function_signature` always receives `self`, so the one-line form is
     never emitted for endpoint methods): on a ONE-LINE signature the stub keeps `async` even for an async
